@@ -10,6 +10,7 @@ import re
 
 PRELUDE = '''"""generated host program"""
 import threading
+import weakref
 
 STATE = {"calls": 0, "items": []}
 MODULE_FLAG = "flag-@SEED@"
@@ -547,6 +548,39 @@ def uncaught_in_gen_@I@(n):
         got.append("exhausted")
     return got
 ''', 'uncaught_in_gen_@I@(@A@)'),
+    ('finalizers', '''
+class Tracked_@I@:
+    def __init__(self, tag, sink):
+        self.tag = tag
+        self.sink = sink
+
+    def __del__(self):
+        self.sink.append("del-" + self.tag)
+
+
+def scope_@I@(v, sink):
+    held = Tracked_@I@("a%d" % v, sink)
+    ref = weakref.ref(held)
+    label = held.tag
+    pair = [held, label]
+    return ref
+
+
+def fill_@I@(registry, sink):
+    temp = Tracked_@I@("b", sink)
+    registry["k"] = temp
+    inside = len(registry)
+    return inside
+
+
+def finalizers_@I@(v):
+    sink = []
+    ref = scope_@I@(v, sink)
+    alive = ref() is not None
+    registry = weakref.WeakValueDictionary()
+    inside = fill_@I@(registry, sink)
+    return list(sink), alive, inside, len(registry)
+''', 'finalizers_@I@(@A@)'),
     ('method_exc', '''
 class Acct_@I@:
     def __init__(self, bal):
